@@ -134,7 +134,7 @@ int32_t tls13ImportPublicValue(ssl_t *ssl,
 
             if (ssl->sec.eccKeyPub != NULL)
             {
-                psEccClearKey(ssl->sec.eccKeyPub);
+                psEccDeleteKey(&ssl->sec.eccKeyPub);
             }
 
             rc = psEccNewKey(ssl->hsPool, &ssl->sec.eccKeyPub, curve);
